@@ -161,7 +161,7 @@ func Harness_C09_RescaleRetention() {
 	verif.Reached()
 }
 
-// Harness_C09_CloseKeepsRetained: R rounds of 1..3 writes (every write is flushed to its own
+// Harness_C09_CloseKeepsRetained: R rounds of 1..W writes (every write is flushed to its own
 // table; two level-0 tables trigger a compaction), background work, a checkpoint and optionally
 // the job's notice that only this checkpoint is retained. Then the database is closed and
 // dropped (redeploy in the same process) and its objects are garbage collected. Every
@@ -177,7 +177,7 @@ func Harness_C09_CloseKeepsRetained() {
 		m := newVerifModel()
 		rounds := verif.Param("R", 2)
 		for round := 0; round < rounds; round++ {
-			n := 1 + verif.Choose("writes", 3)
+			n := 1 + verif.Choose("writes", verif.Param("W", 2))
 			for w := 0; w < n; w++ {
 				i := verif.Choose("key", len(verifKeys))
 				v := verif.Bytes("v", 1)
